@@ -1394,6 +1394,12 @@ func mvH265Escape(b []byte) []byte {
 	return out
 }
 
+func mvH265WithSpace(sps []byte, space int) []byte {
+	raw := mvH265Unescape(sps)
+	raw[3] = raw[3]&0x3f | byte(space&3)<<6 // general_profile_space: the first two bits of profile_tier_level()
+	return mvH265Escape(raw)
+}
+
 func mvH265WithFlags(sps []byte, flags []bool, rext bool) []byte {
 	raw := mvH265Unescape(sps)
 	set := func(bit int, v bool) {
@@ -1436,6 +1442,9 @@ func init() {
 		{"1011001000100", false}, // non_packed, max_8bit, intra
 	} {
 		mvH265SPS = append(mvH265SPS, mvH265WithFlags(base, pat(v.flags), v.rext))
+	}
+	for space := 1; space <= 3; space++ { // general_profile_space A, B, C
+		mvH265SPS = append(mvH265SPS, mvH265WithSpace(base, space))
 	}
 }
 
